@@ -159,8 +159,12 @@ fn gen_oid_for(target: Option<usize>, md: &[u8], st: &[u8]) -> Vec<u8> {
         if total > target {
             break;
         }
-        // grow by one content octet: append a small arc; or by two with a larger arc when one short of stepping over
-        arcs.push(if target - total == 1 { 1 } else { 1 });
+        // grow by one content octet per appended small arc; far from the target in one jump (the three length fields around the
+        // OID may each grow by a few octets on the way, hence the margin), then octet by octet
+        let gap = target - total;
+        for _ in 0..gap.saturating_sub(16).max(1) {
+            arcs.push(1);
+        }
     }
     panic!("cannot size the signed attributes to {target} bytes");
 }
